@@ -75,13 +75,37 @@ func (m *recorder) PostProcessProperties(props []*component_definition.Property,
 		if p.Tag != want {
 			continue
 		}
-		m.seen[name] = append(m.seen[name], fmt.Sprintf("%s|%s|%s", p.StructField.Name, p.TagVal, p.Args().String()))
+		got := map[string][]string{}
+		p.Args().ForEach(func(t component_definition.ArgType, items []string) {
+			if k := string(t); k != "" {
+				got[strings.ToLower(k[:1])+k[1:]] = items
+			}
+		})
+		m.seen[name] = append(m.seen[name], fmt.Sprintf("%s|%s|%s", p.StructField.Name, p.TagVal, renderArgs(got)))
 		if p.Value.Kind() == reflect.Int {
 			p.Value.SetInt(int64(len(p.TagVal)))
 		}
 		p.SetArg(component_definition.ArgRequired, "false")
 	}
 	return nil, nil
+}
+
+// renderArgs renders parsed arguments canonically: names sorted, items separated by an unprintable byte.
+func renderArgs(args map[string][]string) string {
+	names := make([]string, 0, len(args))
+	for k := range args {
+		names = append(names, k)
+	}
+	sort.Strings(names)
+	var sb strings.Builder
+	for _, k := range names {
+		items := args[k]
+		if len(items) == 1 && items[0] == "" {
+			items = nil // (a bare argument and "name=" both carry no item)
+		}
+		sb.WriteString("." + k + "(" + strings.Join(items, "\x1f") + ")")
+	}
+	return sb.String()
 }
 
 type lateTagScanner struct {
@@ -164,7 +188,7 @@ func genLeaves(c *core.Ctx) []leaf {
 				break
 			}
 			// (values with blanks at their ends are handed over as written)
-			v := []string{"v1,k=a b", "plain", "x,Flag,n=[1,2] z", " | ", "  ,kind=prefix", " padded ,k=a b", "tail  ", "-", "-"}[c.Rng.Intn(9)]
+			v := []string{"v1,k=a b", "plain", "x,Flag,n=[1,2] z", "/get,methods=[GET HEAD],roles=(admin ops) guest", "r,m={a b} [c d],Flag", " | ", "  ,kind=prefix", " padded ,k=a b", "tail  ", "-", "-"}[c.Rng.Intn(11)]
 			add(leaf{typ: reflect.TypeOf(0), tag: fmt.Sprintf("mytag:%q", v), kind: "custom", expect: v})
 		case 14:
 			if c.Rng.Intn(2) == 0 {
@@ -312,10 +336,9 @@ func (p c11) Run(c *core.Ctx) {
 	var custom []string
 	for _, l := range ls {
 		if l.kind == "custom" {
+			// (what the processor must be handed is computed by the independent reference parser of C19)
 			v, args := refParse(l.expect.(string))
-			pr := component_definition.NewProperty(dummyField, "x", "mytag", l.expect.(string))
-			_ = args
-			custom = append(custom, fmt.Sprintf("%s|%s|%s", l.name, v, pr.Args().String()))
+			custom = append(custom, fmt.Sprintf("%s|%s|%s", l.name, v, renderArgs(args)))
 		}
 	}
 	sort.Strings(custom)
